@@ -14,7 +14,7 @@ Wave 2: instances created and stopped during the history; begin-session with set
 a timed-out instance is restored lazily by its next request; shared-base factory style with points-heavy settings
 (read by the `tbl` lookup); concurrent handlers for two different instances (threads, forced overlap) compared with
 the sequential / solo result (Lean: C16_commute)."""
-import json, datetime, itertools, shutil, time
+import json, datetime, itertools, shutil, time, os, sys
 from common import *
 
 SM, SC = "smC16", "base"
@@ -24,7 +24,52 @@ EQS = ["stock", "flow", "constant", "conv", "k2", "conv2"]
 KEYS = {0: ("constants", "constant"), 1: ("constants", "k2"), 2: ("points", "tbl"), 3: ("points", "tbl2")}
 DEFAULTS = {0: 1, 1: 2, 2: 1, 3: 1}
 KIND = {"c": 0, "k": 1, "p": 2, "q": 3}
-STYLES = ("fresh", "sharedBase")
+STYLES = ("fresh", "sharedBase", "files")
+# what the factory's products start with at scenario level (the Lean machine's `Server.fac`), per factory style
+FAC = {"fresh": {0: 1}, "sharedBase": {0: 1}, "files": {0: 1, 1: 2, 2: 1}}
+
+FILE_MODEL = """from BPTK_Py import Model
+from BPTK_Py import sd_functions as sd
+
+
+class simulation_model(Model):
+    def __init__(self):
+        super().__init__(starttime=0.0, stoptime=30.0, dt=1.0, name="c16file")
+        stock, flow, const, conv = self.stock("stock"), self.flow("flow"), self.constant("constant"), self.converter("conv")
+        k2, conv2 = self.constant("k2"), self.converter("conv2")
+        self.points["tbl"] = [[0, 1.0], [100, 1.0]]
+        self.points["tbl2"] = [[0, 1.0], [100, 1.0]]
+        conv.equation = sd.lookup(sd.time(), "tbl")
+        conv2.equation = sd.lookup(sd.time(), "tbl2")
+        stock.initial_value = 0.0
+        stock.equation = flow
+        flow.equation = const * conv + k2 * conv2
+        const.equation = 1.0
+        k2.equation = 2.0
+"""
+# the documented production set-up: `bptk_factory = lambda: bptk()` reading the scenario FILES of ./scenarios — an SD DSL model
+# module, a scenario with own constants and points, base constants on the manager (so `constant`, `k2`, `tbl` are scenario-level)
+FILE_SCENARIOS = {"smC16": {"model": "simulation_models/c16file", "base_constants": {"k2": 2.0},
+                            "scenarios": {"base": {"constants": {"constant": 1.0}, "points": {"tbl": [[0, 1.0], [100, 1.0]]}}}}}
+_file_roots = []
+
+
+def new_file_root():
+    """a scenario folder of its own for every server (so that nothing a process-wide cache keeps about one server's files can
+    reach the solo replays on another server)"""
+    root = scratch_dir("c16files")
+    os.makedirs(os.path.join(root, "scenarios")); os.makedirs(os.path.join(root, "simulation_models"))
+    open(os.path.join(root, "simulation_models", "__init__.py"), "w").close()
+    with open(os.path.join(root, "simulation_models", "c16file.py"), "w") as f:
+        f.write(FILE_MODEL)
+    scen = json.loads(json.dumps(FILE_SCENARIOS))
+    scen[SM]["model"] = os.path.join(root, "simulation_models", "c16file")     # absolute: independent of the working directory
+    with open(os.path.join(root, "scenarios", "c16.json"), "w") as f:
+        json.dump(scen, f, indent=1)
+    if not _file_roots:
+        sys.path.insert(0, root)             # the model module is imported once, from the first root
+    _file_roots.append(root)
+    return root
 
 
 def build_model():
@@ -48,6 +93,25 @@ def build_model():
 def make_factory(style, made):
     import BPTK_Py
     base = build_model() if style == "sharedBase" else None
+    if style == "files":
+        root = new_file_root()
+
+        def file_factory():
+            # bptk() reads ./scenarios of the working directory (the `scenario_storage` entry of the configuration is a default
+            # argument frozen at import time); the file monitors would poll the relative file names from other directories: off
+            cc = sys.modules["BPTK_Py.config.config"].configuration
+            old = (cc["set_scenario_monitor"], cc["set_model_monitor"])
+            cc["set_scenario_monitor"], cc["set_model_monitor"] = False, False
+            cwd = os.getcwd()
+            os.chdir(root)
+            try:
+                b = BPTK_Py.bptk()
+            finally:
+                os.chdir(cwd)
+                cc["set_scenario_monitor"], cc["set_model_monitor"] = old
+            made.append(b)
+            return b
+        return file_factory
 
     def factory():
         b = BPTK_Py.bptk()
@@ -636,7 +700,32 @@ def probe_restore(srvs, solo):
 
 
 def cfg_line(facts, st):
-    return f"cfg {'1' if facts[st] else '0'} {'1' if facts['restore'] else '0'} {'1' if facts['freshObj'] else '0'}"
+    return (f"cfg {'1' if facts[st] else '0'} {'1' if facts['restore'] else '0'} {'1' if facts['freshObj'] else '0'} "
+            f"{'1' if facts['kindScn'][st] else '0'}")
+
+
+def fac_line(st):
+    return "fac " + "+".join(f"{k}={v}" for k, v in FAC[st].items())
+
+
+def probe_dicts(srvs, style):
+    """identity of the scenario-level dictionaries (and of the dictionaries they came from) across two instances and across an
+    instance and the server's base bptk: `SimulationScenario.constants`, `.points`, `.dictionary`, the manager's base dictionaries"""
+    srv = srvs.new(style, False)
+    try:
+        srv.new_instances(2)
+        bs = list(srv.made)[:3]
+        def parts(b):
+            sc = b.get_scenario(SM, SC)
+            mg = b.scenario_manager_factory.scenario_managers[SM]
+            return {"constants": sc.constants, "points": sc.points, "dictionary": sc.dictionary,
+                    "base_constants": mg.base_constants, "base_points": mg.base_points}
+        ps = [parts(b) for b in bs]
+        shared = sorted({k for i in range(len(ps)) for j in range(i + 1, len(ps)) for k in ps[i]
+                         if ps[i][k] is ps[j][k] and (k in ("constants", "points", "dictionary") or len(ps[i][k]) > 0)})
+        return not shared, shared
+    finally:
+        srvs.retire(srv)
 
 
 def gen_lean(facts):
@@ -645,11 +734,12 @@ def gen_lean(facts):
            "namespace Bptk.C16.Gen"]
     for st in STYLES:
         out.append(f"def cfg_{st} : Cfg := {{ instancesShareNothing := {b(facts[st])}, restoreOnlyAddressed := {b(facts['restore'])}, "
-                   f"freshObjects := {b(facts['freshObj'])} }}")
+                   f"freshObjects := {b(facts['freshObj'])}, sharedIsScenarioDicts := {b(facts['kindScn'][st])} }}")
         if not facts[st]:
-            out.append(f"theorem violated_{st} : ¬ C16_full cfg_{st} := C16_witness_shared cfg_{st} (by decide)")
+            w = "C16_witness_shared_cache" if facts["kindScn"][st] else "C16_witness_shared"
+            out.append(f"theorem violated_{st} : ¬ C16_full cfg_{st} := {w} cfg_{st} (by decide) (by decide)")
             out.append(f"#print axioms violated_{st}")
-            out.append(f"theorem violated_run_{st} : ¬ C16_full cfg_{st} := C16_witness_shared_run cfg_{st} (by decide)")
+            out.append(f"theorem violated_run_{st} : ¬ C16_full cfg_{st} := {w}_run cfg_{st} (by decide) (by decide)")
             out.append(f"#print axioms violated_run_{st}")
         elif not facts["restore"]:
             out.append(f"theorem violated_{st} : ¬ C16_full cfg_{st} := C16_witness_restore_all cfg_{st} (by decide)")
@@ -667,13 +757,13 @@ def gen_lean(facts):
         else:
             out.append(f"theorem holds_{st} : C16_full cfg_{st} := C16_full_of_good cfg_{st} (by decide) (by decide) (by decide)")
             out.append(f"#print axioms holds_{st}")
-            out.append(f"theorem lifecycle_{st} (k : Nat) (ad : Bool) (pre ops : List (Nat × Req)) (i : Nat) (hk : k ≤ i) "
+            out.append(f"theorem lifecycle_{st} (fac : Obj) (k : Nat) (ad : Bool) (pre ops : List (Nat × Req)) (i : Nat) (hk : k ≤ i) "
                        f"(hpre : ∀ op ∈ pre, owner op ≠ some i) :\n"
-                       f"    respsOf (some i) (resps cfg_{st} (final cfg_{st} (Server.initAd k ad) pre) ops) =\n"
-                       f"    respsOf (some i) (resps cfg_{st} (Server.initAd 0 ad) (proj (some i) ops)) :=\n"
-                       f"  C16_lifecycle cfg_{st} (by decide) (by decide) (by decide) k ad pre ops i hk hpre")
+                       f"    respsOf (some i) (resps cfg_{st} (final cfg_{st} (Server.initF fac k ad) pre) ops) =\n"
+                       f"    respsOf (some i) (resps cfg_{st} (Server.initF fac 0 ad) (proj (some i) ops)) :=\n"
+                       f"  C16_lifecycle cfg_{st} (by decide) (by decide) (by decide) fac k ad pre ops i hk hpre")
             out.append(f"#print axioms lifecycle_{st}")
-            out.append(f"theorem fresh_{st} (s : Server) : takeObj cfg_{st} s = Obj.fresh := takeObj_fresh cfg_{st} (by decide) s")
+            out.append(f"theorem fresh_{st} (s : Server) : takeObj cfg_{st} s = s.fac := takeObj_fresh cfg_{st} (by decide) s")
             out.append(f"#print axioms fresh_{st}")
             out.append(f"theorem absent_local_{st} (s : Server) (op : Nat × Req) (t : Option Nat) (h : absent s.insts op.1 = true) "
                        f"(ht : owner op ≠ t) :\n    comp t (step cfg_{st} s op).1 = comp t s :=\n"
@@ -734,7 +824,8 @@ def probe_fresh(srvs, solo):
     return ok, detail
 
 
-FINDING_KEY = {"fresh": "cross-talk-fresh-model-factory", "sharedBase": "cross-talk-shared-base-model-factory"}
+FINDING_KEY = {"fresh": "cross-talk-fresh-model-factory", "sharedBase": "cross-talk-shared-base-model-factory",
+               "files": "cross-talk-scenario-files-factory"}
 RESTORE_KEY = "cross-talk-restore-rebuilds-other-instances"
 RECYCLE_KEY = "cross-talk-recycled-instance-object"
 
@@ -743,18 +834,33 @@ def run(chk):
     import contextlib, io
     quiet_bptk_logging()
     srvs = Servers()
+    cwd, work = os.getcwd(), scratch_dir("c16cwd")          # bptk() re-enables its log file (bptk_py.log in the working directory)
+    os.chdir(work)
     try:
         with contextlib.redirect_stdout(io.StringIO()):      # FileAdapter prints "Error: ..." when a state file is absent
             _run(chk, srvs)
     finally:
+        os.chdir(cwd)
         srvs.close()
+        shutil.rmtree(work, ignore_errors=True)
+        for r in _file_roots:
+            shutil.rmtree(r, ignore_errors=True)
+            if r in sys.path:
+                sys.path.remove(r)
+        del _file_roots[:]
 
 
 def _run(chk, srvs):
     solo = Solo()
     facts, pdetail = {}, {}
+    facts["kindScn"], ddetail = {}, {}
     for st in STYLES:
         facts[st], pdetail[st] = probe_style(srvs, solo, st)
+        owned, shared = probe_dicts(srvs, st)
+        ddetail[st] = shared
+        facts["kindScn"][st] = not owned       # WHAT is shared: the scenario dictionaries (else: the base model's points table)
+        facts[st] = facts[st] and owned
+    chk.notes["shared_scenario_dictionaries"] = ddetail
     for st in STYLES:
         if not facts[st]:
             chk.notes[f"probe_detail[{st}]"] = [(p_, i_, str(g_)[:400], str(e_)[:400]) for p_, i_, g_, e_ in pdetail[st][3][:2]]
@@ -787,6 +893,7 @@ def _run(chk, srvs):
         dist["with_creation"] += any(l and l[0][0] == "c" for l in lists)
         dist["with_server_level"] += bool(own)
         dist["sharedBase"] += st == "sharedBase"
+        dist["scenario_files_factory"] = dist.get("scenario_files_factory", 0) + (st == "files")
         dist["points_settings"] += any(len(o) > 1 and any(k >= 2 for k, _ in pairs(o[1])) for _, o in seq)
         dist["settings_for_unlisted_elements"] = dist.get("settings_for_unlisted_elements", 0) + any(len(o) > 1 and any(k != 0 for k, _ in pairs(o[1])) for _, o in seq)
         dist["begin_session_settings"] += any(o[0] == "b" and len(o) > 1 and o[1] is not None for _, o in seq)
@@ -852,7 +959,7 @@ def _run(chk, srvs):
         if len(ms) > (12 if chk.quick else 200):
             ms = rng.shuffle(ms)[:(12 if chk.quick else 200)]
         for seq in ms:
-            add_case("fresh" if (chk.quick or rng.chance(1, 2)) else "sharedBase", ad, lists, [], seq, "exhaustive_merges")
+            add_case(rng.choice(["fresh", "files"]) if (chk.quick or rng.chance(2, 3)) else "sharedBase", ad, lists, [], seq, "exhaustive_merges")
     # sequenced lifecycle cases: instance A receives settings and goes away (stop / timeout) BEFORE instance C is started; a third
     # instance B runs sessions across both phases; with adapter C (or B) may time out and be restored after A's stop
     def unl(w=0):
@@ -870,7 +977,7 @@ def _run(chk, srvs):
         h = rng.range(0, len(B))
         ph1 = random_merge(rng, [A, B[:h]])
         ph2 = [(2 if i == 0 else 1, o) for i, o in random_merge(rng, [C, B[h:]])]
-        add_case("fresh" if rng.chance(2, 3) else "sharedBase", ad, [A, B, C], [], ph1 + ph2, "sampled_merges")
+        add_case(rng.choice(["fresh", "files", "files", "sharedBase"]), ad, [A, B, C], [], ph1 + ph2, "sampled_merges")
     for lists, ghost in directed:
         ms = list(merges(lists + ([ghost] if ghost else [])))
         if ghost:
@@ -878,7 +985,7 @@ def _run(chk, srvs):
         if chk.quick and len(ms) > 40:
             ms = rng.shuffle(ms)[:40]
         for seq in ms:
-            add_case("fresh" if (chk.quick or rng.chance(1, 2)) else "sharedBase", True, lists, [], seq, "exhaustive_merges")
+            add_case(rng.choice(["fresh", "files"]) if (chk.quick or rng.chance(2, 3)) else "sharedBase", True, lists, [], seq, "exhaustive_merges")
     for ad, lists, own in short_sets:
         ms = list(merges(lists + ([own] if own else [])))
         if own:
@@ -889,12 +996,12 @@ def _run(chk, srvs):
             ms = rng.shuffle(ms)[:400]
         for seq in ms:
             for st in STYLES:
-                if chk.quick and rng.chance(1, 2):
+                if chk.quick and rng.chance(2, 3):
                     continue
                 add_case(st, ad, lists, own, seq, "exhaustive_merges")
     for n in range(110 if chk.quick else 1000):
         k = rng.range(2, 3)
-        st = "fresh" if rng.chance(1, 2) else "sharedBase"
+        st = rng.choice(["fresh", "sharedBase", "files", "files"])
         ncreated = rng.below(2) if rng.chance(1, 2) else 0
         ad = rng.chance(1, 2)
         lists = [gen_list(rng, long=not chk.quick, created=(j >= k - ncreated), points_heavy=(st == "sharedBase"),
@@ -913,9 +1020,9 @@ def _run(chk, srvs):
     for cs in cases:
         st, ad, lists, own, seq = cs["style"], cs["ad"], cs["lists"], cs["own"], cs["seq"]
         toks, diffs = check_case(srvs, solo, st, ad, lists, own, seq)
-        req += [cfg_line(facts, st), f"val {n_initial(lists)} {1 if ad else 0} " + (",".join(op_code(i, op) for i, op in seq) or "-")]
-        real += ["ok", ",".join(toks)]
-        bodies += [None, [b for _, b in check_case.last_got]]
+        req += [cfg_line(facts, st), fac_line(st), f"val {n_initial(lists)} {1 if ad else 0} " + (",".join(op_code(i, op) for i, op in seq) or "-")]
+        real += ["ok", "ok", ",".join(toks)]
+        bodies += [None, None, [b for _, b in check_case.last_got]]
         for _, op in seq:
             kinds[op[0]] = kinds.get(op[0], 0) + 1
         nsett = sum(1 for l in lists + [own] if any(len(o) > 1 and o[1] is not None for o in l)) + any(i == GHOST for i, _ in seq)
@@ -930,14 +1037,14 @@ def _run(chk, srvs):
     conc_first = {}
     for n in range(40 if chk.quick else 320):
         lists, pa, pb, schedule = gen_conc_case(rng)
-        st = "fresh" if rng.chance(1, 2) else "sharedBase"
+        st = rng.choice(["fresh", "sharedBase", "files"])
         ad = rng.chance(1, 3)
         seq, toks, diffs, overlapped = check_conc_case(srvs, solo, st, ad, lists, pa, pb, schedule, rng)
         conc["cases"] += 1; conc["overlapped"] += bool(overlapped)
         conc["by_schedule"][schedule] = conc["by_schedule"].get(schedule, 0) + 1
-        req += [cfg_line(facts, st), f"val 2 {1 if ad else 0} " + ",".join(op_code(i, op) for i, op in seq)]
-        real += ["ok", ",".join(toks)]
-        bodies += [None, [b for _, b in check_conc_case.last_got]]
+        req += [cfg_line(facts, st), fac_line(st), f"val 2 {1 if ad else 0} " + ",".join(op_code(i, op) for i, op in seq)]
+        real += ["ok", "ok", ",".join(toks)]
+        bodies += [None, None, [b for _, b in check_conc_case.last_got]]
         chk.case((st, ad, schedule, pa, pb, tuple(op_str(i, op) for i, op in seq)), nontrivial=True)
         if diffs and st not in conc_first and FINDING_KEY[st] not in first and not (ad and not facts["restore"]) and facts["freshObj"]:
             conc_first[st] = (ad, lists, pa, pb, schedule, seq, diffs)
@@ -985,7 +1092,7 @@ def _run(chk, srvs):
     # values: with all mechanism facts good, the numbers of every step / run body equal the closed form of the harness model on the
     # effective settings the machine predicts
     vdiff, nvals = None, 0
-    all_good = all(facts[k] for k in facts)
+    all_good = all(facts[k] for k in facts if k != "kindScn")
     if all_good:
         for j, (a, bs) in enumerate(zip(model, bodies)):
             if bs is None:
@@ -1018,7 +1125,10 @@ def tup(o):
 
 
 def replay(path):
+    import contextlib, io
     quiet_bptk_logging()
+    with contextlib.redirect_stdout(io.StringIO()) as _buf:
+        pass
     r = json.load(open(path))["replay"]
     srvs = Servers()
     try:
@@ -1035,6 +1145,8 @@ def replay(path):
             return 1
     finally:
         srvs.close()
+        for r_ in _file_roots:
+            shutil.rmtree(r_, ignore_errors=True)
     print("style:", r["style"], "adapter:", r.get("ad", False), "requests:", [op_str(a, o) for a, o in seq])
     print("responses:", toks)
     print("differences from the solo replays on the current tree:", [(p, i, str(g)[:100], str(e)[:100]) for p, i, g, e in diffs])
